@@ -48,6 +48,8 @@ PROGS = [
     "t = sum(x for x in xs)\nu = f((y for y in ys), z)\nv = any(\n    w for w in ws\n)",
     # one name in every expression context (the ctx parameter decides whether a context instance in the pattern is compared)
     "x = x + 1\ndel x, y\nfor x in x: pass\nz = [x for x in w if x]\nwith a as x: x",
+    # blocks inside blocks
+    "if a:\n    if b:\n        c\n    d\nif e: f\nelif g:\n    if h: i\nq",
     # parameter lists of every size from zero to two
     "def z(): pass\ndef one(a): return a\ndef dflt(b=1): return b\ndef star(*c): pass\nl = lambda k: k\ndef two(d, e=2): pass",
 ]
@@ -83,7 +85,7 @@ def rules(M):
     R['dict-mid'] = (M.MDict(_all=[..., M.M(mid=...), ...]), lambda n: isinstance(n, ast.Dict) and len(n.keys) == 3,
                      lambda n: ast.Dict(keys=[T(name('x')), n.keys[1]], values=[T(name('y')), n.values[1]], _tmpl=True),
                      '{x: y, "...": __FST_mid}', False)
-    R['if-swap'] = (M.MIf(test=M.M(t=...), body=M.M(b=...), orelse=M.M(e=...)), lambda n: isinstance(n, ast.If) and bool(n.orelse),
+    R['if-swap'] = (M.MIf(test=M.M(t=...), body=M.M(b=...), orelse=M.M(e=...)), lambda n: isinstance(n, ast.If),  # (an If without else gives an empty body: not valid Python, not judged)
                     lambda n: ast.If(test=ast.UnaryOp(op=ast.Not(), operand=n.test, _tmpl=True), body=list(n.orelse), orelse=list(n.body),
                                      _tmpl=True), 'if not __FST_t:\n    __FST_e\nelse:\n    __FST_b', False)
     R['stmt-identity'] = (M.Mstmt(), lambda n: isinstance(n, ast.stmt), lambda n: n, '__FST_', True)
@@ -131,6 +133,10 @@ def rules(M):
                       lambda n: ast.BinOp(left=n, op=ast.Add(), right=T(ast.Constant(value=0)), _tmpl=True), '(__FST_ +\n 0)', False)
     R['def->wrapper'] = (M.MFunctionDef(args=M.M(a=...)), lambda n: isinstance(n, ast.FunctionDef), wrapper,
                          'def wrapper(__FST_a):\n    return impl(__FSS_a)', False)
+    # a template of several statements: the matched statement is replaced by all of them (and, nested, what they contain is searched)
+    R['if->two-stmts'] = (M.MIf(test=M.M(t=...), body=M.M(b=...)), lambda n: isinstance(n, ast.If),
+                          lambda n: [T(ast.Expr(value=name('x'))), ast.While(test=n.test, body=list(n.body), orelse=[], _tmpl=True)],
+                          'x\nwhile __FST_t:\n    __FST_b', False)
     # whole-match slot where the slot is an element made of several nodes (a parameter with its default): structure unchanged
     R['args-identity'] = (M.Marguments(), lambda n: isinstance(n, ast.arguments), lambda n: n, ('FST', '__FST_', 'arguments'), True)
     # a slot inside a string literal of the template receives the matched source as text (documented): the result is a Constant
@@ -174,15 +180,26 @@ class Ref:
             out.sort(key=key)
         return out[::-1] if self.back else out
 
-    def visit_children(self, node):
+    def visit_kids(self, node, skip=None):
+        """visit the children in syntactic order; a child replaced by a list of statements is spliced into its list"""
+        repl = {}
         for f, i, c in self.kids(node):
-            new = self.visit(c)
+            new = self.visit(c, skip_self=(skip is not None and c is skip))
             if new is not c:
-                if i is None:
-                    setattr(node, f, new)
-                else:
-                    getattr(node, f)[i] = new
+                repl[(f, i)] = new
+        for (f, i), new in repl.items():
+            if i is None:
+                setattr(node, f, new)
+        for f in {f for (f, i) in repl if i is not None}:
+            out = []
+            for i, c in enumerate(getattr(node, f)):
+                r = repl.get((f, i), c)
+                out.extend(r if isinstance(r, list) else [r])
+            setattr(node, f, out)
         return node
+
+    def visit_children(self, node):
+        return self.visit_kids(node)
 
     def visit(self, node, skip_self=False):
         if self.on == 'leave':
@@ -196,13 +213,8 @@ class Ref:
                 if new is node:  # identity template: the whole-match top node is not considered again, its children are
                     self.visit_children(new)
                 else:
-                    for f, i, c in self.kids(new):
-                        nc = self.visit(c, skip_self=(self.whole and c is node))
-                        if nc is not c:
-                            if i is None:
-                                setattr(new, f, nc)
-                            else:
-                                getattr(new, f)[i] = nc
+                    for top in (new if isinstance(new, list) else [new]):
+                        self.visit_kids(top, skip=node if self.whole else None)
             return new
         return self.visit_children(node)
 
@@ -348,7 +360,7 @@ def run_case(fst, M, pi, rname, st, res):
 
 RULE_NAMES = ['name->log', 'binop->f', 'binop-swap', 'call-unwrap', 'expr-identity', 'list-slice', 'dict-mid', 'if-swap', 'stmt-identity',
               'def->wrapper',
-              'call-args-tail', 'call-_args-tail', 'call-_args-init', 'genexp->list', 'genexp->or', 'name->par', 'name-x-ctx', 'args-identity', 'name->str']
+              'call-args-tail', 'call-_args-tail', 'call-_args-init', 'genexp->list', 'genexp->or', 'name->par', 'name-x-ctx', 'args-identity', 'name->str', 'if->two-stmts']
 
 
 def shards(tier):
